@@ -203,6 +203,25 @@ def run(ctx):
                       why='a chain\'s generator must not be shared with other chains/threads')
     # ---------------------------------------------------------------- R7.5 seeded initialisers
     purity(ctx, A)
+    # ---------------------------------------------------------------- R7.6 / R7.7 (shared rules, decided here under C07 as well)
+    # schedule independence of the collected output: chains are gathered by index-preserving collectors (no arrival-order channel)
+    from .C09 import runner_run, nuts_run, hmc_run
+    from .C10 import core_worker, nuts_worker, hmc_progress
+    nc, nd = S('n_collect'), S('n_discard')
+    runner_run(ctx, nc, nd)
+    nuts_run(ctx, nc, nd)
+    for nm in ('core.run', 'NUTS.run', 'HMC.run'):
+        b = A.get(nm)
+        if b is None:
+            continue
+        ev = ctx.evaluate(b)
+        conc = [e.op for e in ev.vf.events if e.op in ('channel', 'spawn', 'spawn_scoped') or (e.key or '').startswith('std::sync::mpsc::')]
+        ctx.check('C07.R7.7.no_arrival_order', strip_generics(b['path']), 'collect', not conc, expected='no channel / thread hand-off on the run() path: results are gathered by index',
+                  found=', '.join(conc) or 'none', sp=b['sp'], why='output assembled in completion order depends on the schedule and the thread count')
+    # progress mode performs the same transitions and consumes the same draws as run
+    core_worker(ctx, nc, nd)
+    nuts_worker(ctx, nc, nd)
+    hmc_progress(ctx, nc, nd)
 
 
 def purity(ctx, A):
